@@ -18,13 +18,14 @@ rvars == <<vars, phase, hist, done>>
 
 MutatorOps == {"Mkdir", "MkdirAll", "Create", "WriteFile", "Append", "Remove", "RemoveAll", "Rename",
                "Chmod", "Chown", "Chtimes"}
+\* (batched Operations.Archive is an archive-interface call, not a filesystem method: not issued read-only)
 HandleActs == {"write", "writeat", "writestring", "truncate", "sync", "read", "close"}
 \* k encodes the open flags: 0 RDONLY, 1 WRONLY, 2 RDWR, +4 APPEND, +8 CREATE, +16 TRUNC, +32 EXCL
 Flags == {0, 1, 2, 5, 6, 9, 10, 17, 18, 26, 42, 8, 16}
 MCFlags == {0, 2, 10, 16}
 MCHandleActs == {"write", "truncate", "read"}
 
-ROCalls == Calls \cup {C("OpenHandle", p, Root, a, f) : p \in Paths, a \in HandleActs, f \in Flags}
+ROCalls == {c \in Calls : c.op # "Archive"} \cup {C("OpenHandle", p, Root, a, f) : p \in Paths, a \in HandleActs, f \in Flags}
 
 RORes(c) ==
   IF c.op \in MutatorOps THEN "EPERM"
@@ -43,8 +44,8 @@ RODo(c) == /\ last' = Obs(c, RORes(c), FALSE, 0)
 Useful(c) == /\ RefStep(ref, c).res = "ok" /\ c.op \notin Observers
              /\ ~(c.op = "Rename" /\ c.p = c.q) /\ ~(c.op = "RemoveAll" /\ c.p \notin DOMAIN ref)
              /\ ~(c.op = "MkdirAll" /\ c.p \in DOMAIN ref)
-PickRW == LET ok  == {c \in Calls : Useful(c) /\ Fits(c)}
-              all == {c \in Calls : Fits(c)}
+PickRW == LET ok  == {c \in Calls : Useful(c) /\ Fits(c) /\ ArchiveOK(c)}
+              all == {c \in Calls : Fits(c) /\ ArchiveOK(c)}
           IN {RandomElement(IF RandomElement(1..100) <= OkBias /\ ok # {} THEN ok ELSE all)}
 \* read-only phase: half of the calls aim at existing entries
 PickRO == LET hit == {c \in ROCalls : c.p \in DOMAIN ref}
